@@ -25,7 +25,7 @@ func genC18(rng *rand.Rand, tier string) *sim.Plan {
 	ver := pick(rng, []byte{4, 5})
 	// 0 tcp twin, 1 ws twin, 2 publisher / observer, 3 optional text-frame client
 	p.Clients = []sim.ClientSpec{{ID: "twin-t", Ver: ver}, {ID: "twin-w", Ver: ver}, {ID: "obs", Ver: 4}}
-	mode := rng.IntN(7) // 0 = drawn per connection
+	mode := rng.IntN(8) // 0 = drawn per connection, k = mode k-1
 	text := chance(rng, 0.15)
 	if text {
 		p.Clients = append(p.Clients, sim.ClientSpec{ID: "texty", Ver: 4})
@@ -37,14 +37,26 @@ func genC18(rng *rand.Rand, tier string) *sim.Plan {
 	}})
 	sizes := []int{1, 2, 100, 1000, 1010, 1015, 1016, 1017, 1018, 1019, 1020, 1021, 1022, 1023, 1024, 1025, 1026, 2040, 2047, 2048, 2049, 3000, 5000, 65536, 70000}
 	n := 2 + rng.IntN(6)
+	small := chance(rng, 0.25)
+	if small {
+		// a small max_packet_size: every packet is below it, the WebSocket messages that carry several of them are not
+		// (the limit is about MQTT packets, not about transport messages)
+		p.Broker.MaxPacketSize = 300
+		sizes = []int{1, 20, 100, 200, 250}
+		n = 4 + rng.IntN(8)
+		if chance(rng, 0.7) {
+			mode = 7 // pack several packets into one message
+			p.Phases[0].Ops[4].WSMode = mode
+		}
+	}
 	var ph sim.Phase
 	for k := 0; k < n; k++ {
 		sz := pick(rng, sizes)
-		if chance(rng, 0.3) {
+		if chance(rng, 0.3) && !small {
 			sz = 1 + rng.IntN(3000)
 		}
 		q := byte(rng.IntN(3))
-		nw := chance(rng, 0.5)
+		nw := chance(rng, 0.5) || small
 		pl := fmt.Sprintf("w%d_", k)
 		// the twins publish the same message (to the observer) ...
 		ph.Ops = append(ph.Ops, sim.Op{K: "publish", C: 0, Topic: "y/t", QoS: q, Payload: pl, PadTo: sz, NoWait: nw})
